@@ -51,6 +51,46 @@ TABLE = {
             "continuing a run across reconnects, for all paths rather than the one scenario the suite plays.",
             "Decides structure only: crash points without shutdown, database contents and message arrival order after the "
             "reconnect are outside static reach."),
+    "C16": ("interprocedural kind (dimension/clock) analysis of every time argument that reaches a tag writer",
+            "A kind lattice {TICK_TIME, COUNTER, WALL, MONO, DURATION, CONST, UNKNOWN} is propagated from Engine.tick's "
+            "tick_time parameter through parameters, attributes and returns (global fix-point over resolved call sites); "
+            "every call of Tag.set_value/set_value_and_unit/simulate_value(_and_unit) and every write of <tag>.tick_time "
+            "in non-test, non-configuration code must receive exactly TICK_TIME. This decides provenance for all programs "
+            "and schedules - a type checker cannot (int is assignable to float) and tests only see a few tags.",
+            "Seed assumption: Engine.tick is called with the engine clock time of the tick. Wall-clock stamping sites "
+            "that need an API change to repair are open known findings. User UOD code is out of scope."),
+    "C19": ("check-then-use contradiction rule + must-report rule on CFGs of all analyzer visitors",
+            "For every branch on <collection>.has(name) the missing edge is followed on the CFG: it may never reach "
+            "get()/[] of the same name (which raises) and must pass an ERROR AnalyzerItem before the exit; lookups need a "
+            "dominating blank-name guard; AnalyzerItem calls never pass both length and end; lint has a catch-all. "
+            "Covers every method text and tag/command set because the rule is about all paths of the visitors.",
+            "Decides the lookup/report discipline of analyzer.py; exceptions raised inside pint or by validators of "
+            "UOD-defined commands are outside; one justified site is listed in the rule with its reason."),
+    "C23": ("finite abstract interpretation: 5-state recovery machine extracted from the source vs. the documented table",
+            "ErrorRecoveryDecorator's methods are interpreted over the domain {self.state} x {Connection Status written} "
+            "with hardware outcomes and time comparisons nondeterministic; the extracted transition edges must equal the "
+            "seven documented ones (sentences re-checked in docs/src/Error Recovery.rst), Connection Status must agree "
+            "with the state at every exit of every entry method from every state, Issue/Reconnect must mask and "
+            "Disconnected/Error must raise, and last-known-good values are written only on successful reads. Exhaustive "
+            "over states and paths, hence over all fault sequences, for the abstracted machine.",
+            "Abstraction: only self.state/status writes and guards are interpreted; timeouts are nondeterministic "
+            "booleans (their arithmetic is not decided); logging calls are assumed not to raise."),
+    "C24": ("kill rule for superseded pending writes + flush/ownership/filter-completeness rules on CFGs",
+            "On every path after a successful decorated write the pending entries of the written registers must be "
+            "removed (directly or through the verified summary of _write_pending_values whose state guard is shown true "
+            "by abstract interpretation); flushing happens only in state OK after a successful write; buffering always "
+            "clears last_success_writes; failure paths store the newest value; the unchanged-value filter may drop a "
+            "value only on an edge that compared it equal. These are the invariants that make 'newest commanded value "
+            "wins' hold for every fault sequence.",
+            "Decides the buffering mechanism of hardware_recovery.py; register contents and the concrete hardware layer "
+            "are outside."),
+    "C36": ("who-may-write (ownership) rule for reported tag state + must-call checks along the notification chain",
+            "Every assignment to value/simulated_value/simulated of any Tag subclass outside constructors must be followed "
+            "on all paths by notify_listeners; the chain tag -> collection -> engine listener -> queue -> message builder "
+            "is checked link by link (registration, draining before clearing, de-duplication by name, latest value read "
+            "at collection time, snapshot covers _iter_all_tags).",
+            "Decides structure; the interleaving between the engine thread and the reporter thread is outside; tags "
+            "defined in user UOD modules are outside."),
 }
 
 DESIGN_NA = {
